@@ -386,3 +386,27 @@ Proof.
   - apply Inv_add_reqs; auto. apply in_requestable_single.
   - apply Inv_add_follows; auto. apply in_requestable_follow.
 Qed.
+
+Lemma Inv_fold_start_group rules c t l : forall s,
+  Inv rules c s -> aget (is_tasks s) t <> None -> kind_of s t = KWaiting -> ~ In t (is_ready s) ->
+  Inv rules c (fold_left (fun s g => start_group rules s t g) l s).
+Proof.
+  induction l as [|g l IH]; intros s H Hex Hk Hnr; cbn [fold_left]; auto.
+  pose proof (keeps_start_group rules s t g) as K. apply IH.
+  - now apply Inv_start_group.
+  - destruct K as (_ & _ & K3 & _). auto.
+  - now rewrite (keeps_kind _ _ t K).
+  - destruct K as (K1 & _). now rewrite K1.
+Qed.
+
+Lemma Inv_task_start rules ord c s t :
+  Inv rules c s -> aget (is_tasks s) t <> None -> kind_of s t = KWaiting -> ~ In t (is_ready s) -> Inv rules c (task_start rules ord s t).
+Proof.
+  intros H Hex Hk Hnr. unfold task_start. cbn zeta. destruct (aget (is_tasks s) t) as [ti|] eqn:Hg; [|contradiction].
+  assert (Hg1 : aget (is_tasks (iemit s (EStart t))) t = Some ti) by exact Hg.
+  rewrite (mod_ti_some _ _ _ _ Hg1). apply Inv_fold_start_group.
+  - apply Inv_set_ti_cosmetic with (ti := ti); auto. now apply Inv_iemit.
+  - autorewrite with iv. rewrite aget_aset_same. discriminate.
+  - exact Hk.
+  - exact Hnr.
+Qed.
